@@ -60,16 +60,22 @@ def run(tier, seed, replay=None):
         pd = rng.choice([1, 2, 2, 3, 3])
         order = rng.choice([2, 2, 3])
         rat = rng.random() < 0.25
-        cx = X.build(rng, pd, order=order, refine=rng.choice([0, 0, 1]), rational=rat)
+        ring = pd >= 2 and rng.random() < 0.2
+        if ring:
+            # complexes closing around an axis: a patch adjacent to itself, two patches sharing two interfaces, closed chains
+            cx = X.build_ring(rng, pd, order=order, refine=rng.choice([0, 0, 1]), rational=rat)
+        else:
+            cx = X.build(rng, pd, order=order, refine=rng.choice([0, 0, 1]), rational=rat)
         args = describe(cx)
         nontriv.add(C.case_hash(args))
         try:
             model = SplineModel(pd, cx['dim'])
+            kw = dict(raise_on_twins=False) if ring else {}
             if rng.random() < 0.5:
-                model.add(cx['patches'])
+                model.add(cx['patches'], **kw)
             else:
                 for p in cx['patches']:
-                    model.add(p)
+                    model.add(p, **kw)
         except Exception as e:  # noqa
             fail('add', args, 'adding a conforming complex raised %s' % type(e).__name__)
             continue
@@ -81,8 +87,17 @@ def run(tier, seed, replay=None):
             fail('node counts', args, 'node counts %s differ from the cell complex %s' % (got, cx['expected']))
             continue
         # interfaces: higher neighbours are exactly the adjacent patches; boundary() = unshared faces
-        shared, bnd = X.interior_faces(cx['cells'], pd)
+        shared, bnd = X.interior_faces(cx['cells'], pd, cx.get('period'))
         phi = cx['phi']
+        if phi is None:
+            # ring complexes: the interfaces are counted (a self-interface is one node below its patch)
+            b = list(model.boundary())
+            if len(b) != len(bnd):
+                fail('boundary', args, 'boundary() lists %d faces, the complex has %d unshared ones' % (len(b), len(bnd)))
+            nsh = sum(1 for n in model.catalogue.nodes(pd - 1) if n not in b)
+            if nsh != len(shared):
+                fail('neighbours', args, '%d interface nodes, the complex has %d interfaces' % (nsh, len(shared)))
+            continue
 
         def key_centre(key):
             return phi([sum(k) / len(k) for k in key])
@@ -285,7 +300,7 @@ def run(tier, seed, replay=None):
         fail('self-connected', {}, 'raised %s' % type(e).__name__)
 
     # ---------------------------------------------------------------- L1: Orientation.compute vs the extracted model
-    corr_bad = None
+    corr_bad = C.Corr()
     lines = []
     atol = C.fr(state.controlpoint_absolute_tolerance)
     for spec, sb, ori in l1[: (150 if tier == 'quick' else 100000)]:
@@ -296,15 +311,15 @@ def run(tier, seed, replay=None):
         nl1 += 1
         st = tk.word()
         if st != 'Some':
-            if corr_bad is None:
-                corr_bad = {'what': 'L1: the model finds no orientation, the implementation returns %s' % (ori,), 'op': 'orientation', 'args': dict(a=O.spec_json(spec), b=O.spec_json(sb))}
+            if corr_bad.open():
+                corr_bad += {'what': 'L1: the model finds no orientation, the implementation returns %s' % (ori,), 'op': 'orientation', 'args': dict(a=O.spec_json(spec), b=O.spec_json(sb))}
             continue
         perm = tuple(tk.list(tk.int))
         flip = tuple(bool(x) for x in tk.list(tk.int))
-        if (perm, flip) != ori and corr_bad is None:
-            corr_bad = {'what': 'L1: Orientation.compute returns %s, the model %s' % (ori, (perm, flip)), 'op': 'orientation', 'args': dict(a=O.spec_json(spec), b=O.spec_json(sb))}
+        if (perm, flip) != ori and corr_bad.open():
+            corr_bad += {'what': 'L1: Orientation.compute returns %s, the model %s' % (ori, (perm, flip)), 'op': 'orientation', 'args': dict(a=O.spec_json(spec), b=O.spec_json(sb))}
     dist['op']['L1 comparisons'] = nl1
-    rc = V.finish(l0, corr_bad if not V.fail else None)
+    rc = V.finish(l0, corr_bad)
     C.write_evidence(PID, tier, seed, l0, {
         'evaluations': evals, 'distinct_nontrivial': len(nontriv),
         'rule': 'conforming complexes on a distorted lattice (blocks, L/T/O shapes, single cells; curves, surfaces, volumes; orders 2-3, refined or not, rational or not), every patch in a random '
